@@ -88,6 +88,27 @@ def make_tensor(rs, shp, cls, dt, rescale=True):
     return (X * np.asarray(sc, dtype=dt)).astype(dt)
 
 
+def _structured_square(rs, dt):
+    a, b = int(rs.randint(1, 4)), int(rs.randint(1, 4))
+    n = a * b
+    kind = gen.choice(rs, ["symmetric-indefinite", "symmetric-indefinite", "symmetric-psd", "skew", "symmetric-zero-diagonal"])
+    A = rs.standard_normal((n, n))
+    if kind == "symmetric-indefinite":
+        M = A + A.T
+        M[np.diag_indices(n)] = np.abs(np.diag(M))
+    elif kind == "symmetric-psd":
+        M = A @ A.T
+    elif kind == "skew":
+        M = A - A.T
+    else:
+        M = A + A.T
+        M[np.diag_indices(n)] = 0.0
+    if not np.any(M):
+        M = np.ones((n, n))
+    shp = [n, n] if (b == 1 or rs.rand() < 0.5) else [n, a, b]
+    return M.reshape(shp).astype(dt), shp, len(shp), kind
+
+
 def tail_sq(sig, r):
     return float(np.sum(sig[r:] ** 2))
 
@@ -162,13 +183,29 @@ def run_case(case, ctx):
         rank = [int(rs.randint(1, s + 3)) for s in shp]
         if rs.rand() < 0.2:
             rank = [1] * order
-        out = D.tucker(X, rank, n_iter_max=sweeps, init="svd", svd=svd, tol=0, random_state=0)
-        core, fs = out
+        modes = list(range(order))
+        if rs.rand() < 0.25:
+            # only some modes decomposed (a batch mode left alone), ranks as one int or a list: same theorem over those modes
+            k_ = int(rs.randint(1, order + 1))
+            modes = sorted(rs.choice(order, size=k_, replace=False).tolist())
+            if rs.rand() < 0.5:
+                rint = int(rs.randint(1, max(shp) + 2))
+                rank, rank_arg = [rint] * k_, rint
+            else:
+                rank = [rank[m] for m in modes]
+                rank_arg = list(rank)
+            ctx.count("tucker/partial-%s" % ("int" if isinstance(rank_arg, int) else "list"))
+            (core, fs), _e = D.partial_tucker(X, rank_arg, modes=modes, n_iter_max=sweeps, init="svd", svd=svd, tol=0, random_state=0)
+        else:
+            out = D.tucker(X, rank, n_iter_max=sweeps, init="svd", svd=svd, tol=0, random_state=0)
+            core, fs = out
         rr = [f.shape[1] for f in fs]
-        desc = {"gen": g, "shape": shp, "class": cls, "rank": rank, "returned": rr, "sweeps": sweeps, "svd": svd, "dtype": dt}
-        sigs = [np.linalg.svd(ref.unfold(Xh, n), compute_uv=False) for n in range(order)]
+        desc = {"gen": g, "shape": shp, "class": cls, "rank": rank, "modes": modes, "returned": rr, "sweeps": sweeps, "svd": svd, "dtype": dt}
+        sigs = [np.linalg.svd(ref.unfold(Xh, n), compute_uv=False) for n in modes]
+        # the promise is stated for the requested ranks (beyond a mode's size nothing is discarded); the lower bound for the returned ones
+        tails_req = [tail_sq(s, r) for s, r in zip(sigs, rank)]
         tails = [tail_sq(s, r) for s, r in zip(sigs, rr)]
-        err = ref.frob_sq(Xh - ref.tucker_dense(core, fs)[0])
+        err = ref.frob_sq(Xh - ref.tucker_dense(core, fs, modes)[0])
         slack = acc * nx * order * 10
         ctx.count("clause/ranks-respected")
         if any(a > b for a, b in zip(rr, rank)):
@@ -177,7 +214,7 @@ def run_case(case, ctx):
         if max(tails) > 1e-20 * nx or cls in ("lowmultilinear", "rankdef"):
             ctx.nontriv(desc)
         ctx.sample({"case": desc, "error_sq": err, "tails_sq": tails}, 3)
-        if all(t <= slack for t in tails):
+        if all(t <= slack for t in tails_req):
             ctx.count("clause/exact")
             if err > slack * 10:
                 viol("exact", svd, "all requested ranks cover the unfolding ranks but ||X-X^||^2/||X||^2 = %.3g" % (err / nx), desc)
@@ -189,8 +226,8 @@ def run_case(case, ctx):
             ctx.count("truncated_symeig_extreme_units_not_judged")
             return
         ctx.count("clause/upper-bound")
-        if err > sum(tails) + slack:
-            viol("upper-bound", svd, "error^2 %.6g exceeds the sum of discarded mode tails %.6g" % (err, sum(tails)), desc)
+        if err > sum(tails_req) + slack:
+            viol("upper-bound", svd, "error^2 %.6g exceeds the sum of discarded mode tails %.6g (requested ranks %s, returned %s)" % (err, sum(tails_req), rank, rr), desc)
         ctx.count("clause/lower-bound")
         if err < max(tails) - slack:
             viol("lower-bound", svd, "error^2 %.6g is below the largest single discarded tail %.6g: the returned ranks are not respected" % (err, max(tails)), desc)
@@ -201,6 +238,10 @@ def run_case(case, ctx):
             order = int(rs.randint(2, 6))
             shp = gen.shape(rs, order, 1, 5 if order < 5 else 3)
             X = make_tensor(rs, shp, cls, dt, rescale=(svd != "symeig_svd"))
+            if rs.rand() < 0.12 and X.dtype.kind == "f":
+                # an unfolding that happens to be a symmetric (or skew, or Hermitian-looking) indefinite square matrix with a
+                # non-negative diagonal: a kernel / adjacency / Hessian-like table. Its SVD is not its eigendecomposition.
+                X, shp, order, cls = _structured_square(rs, dt)
             Xh = ref.hp(X)
             eff_tensor = Xh
             eff = shp
@@ -233,6 +274,9 @@ def run_case(case, ctx):
         err = ref.frob_sq(Xh - rec)
         sigs = [np.linalg.svd(eff_tensor.reshape(int(np.prod(eff[:k])), -1), compute_uv=False) for k in range(1, order)]
         tails = [tail_sq(s, r) for s, r in zip(sigs, rr[1:-1])]
+        # a rank clipped below the request (to the rows/columns of the running remainder) discards nothing at that step: the bound
+        # is the one of the requested ranks
+        tails_req = [tail_sq(s, r) for s, r in zip(sigs, req[1:-1])]
         slack = acc * nx * max(order, 2) * 10
         ctx.count("clause/ranks-respected")
         if any(a > b for a, b in zip(rr, req)):
@@ -241,14 +285,14 @@ def run_case(case, ctx):
         if (tails and max(tails) > 1e-20 * nx) or cls in ("lowtt", "rankdef"):
             ctx.nontriv(desc)
         ctx.sample({"case": desc, "error_sq": err, "tails_sq": tails}, 3)
-        if all(t <= slack for t in tails):
+        if all(t <= slack for t in tails_req):
             ctx.count("clause/exact")
             if err > slack * 10:
                 viol("exact", svd, "all requested ranks cover the sequential unfolding ranks but ||X-X^||^2/||X||^2 = %.3g" % (err / nx), desc)
             return
         ctx.count("clause/upper-bound")
-        if err > sum(tails) + slack:
-            viol("upper-bound", svd, "error^2 %.6g exceeds the sum of discarded sequential tails %.6g" % (err, sum(tails)), desc)
+        if err > sum(tails_req) + slack:
+            viol("upper-bound", svd, "error^2 %.6g exceeds the sum of discarded sequential tails %.6g (requested %s, returned %s)" % (err, sum(tails_req), req, rr), desc)
         ctx.count("clause/lower-bound")
         if err < max(tails) - slack:
             viol("lower-bound", svd, "error^2 %.6g is below the largest single discarded tail %.6g" % (err, max(tails)), desc)
@@ -258,6 +302,8 @@ def run_case(case, ctx):
     order = int(rs.randint(2, 6))
     shp = gen.shape(rs, order, 1, 4 if order < 5 else 3)
     X = make_tensor(rs, shp, cls, dt, rescale=(svd != "symeig_svd"))
+    if rs.rand() < 0.12 and X.dtype.kind == "f":
+        X, shp, order, cls = _structured_square(rs, dt)
     Xh = ref.hp(X)
     nx = ref.frob_sq(Xh)
     mode = int(rs.randint(order))
